@@ -267,8 +267,8 @@ func (u *Unit) finish() {
 		if len(u.defs) > 0 {
 			o.Assume = append(append([]*Term{}, u.defs...), o.Assume...)
 		}
-		if len(extra) > 0 && usesTheory(o, u.ctx) {
-			o.Assume = append(append([]*Term{}, extra...), o.Assume...)
+		if len(extra) > 0 && !o.NoAxioms && usesTheory(o, u.ctx) {
+			o.Axioms = extra
 		}
 		if len(u.unbound) > 0 && o.Note == "" {
 			o.Note = strings.Join(u.unbound, "; ")
@@ -308,12 +308,55 @@ func solveOne(o *Obligation, budgetS int, cross bool) {
 	if logic == "" {
 		logic = "ALL"
 	}
-	var goal *Term
-	if !o.Cover {
-		goal = o.Goal
+	if o.Cover {
+		o.Txt = Script(o.Ctx, logic, o.Assume, nil, true)
+		o.Res = solve(o.Txt, budgetS, false)
+		return
 	}
-	o.Txt = Script(o.Ctx, logic, o.Assume, goal, true)
-	o.Res = solve(o.Txt, budgetS, cross)
+	// Tiered solving: dropping assumptions is sound for a proof, and small
+	// queries are the stable ones. Tier 1: quantifier-free assumptions only;
+	// tier 2: everything but the theory axioms; tier 3: everything.
+	var qf []*Term
+	nq := 0
+	for _, a := range o.Assume {
+		if hasQuantifier(a) {
+			nq++
+		} else {
+			qf = append(qf, a)
+		}
+	}
+	total := 0.0
+	try := func(assume []*Term, b int, tier string) bool {
+		txt := Script(o.Ctx, logic, assume, o.Goal, true)
+		r := solve(txt, b, cross && tier == "full")
+		total += r.TimeS
+		if r.Status == "unsat" && r.Cross == "" {
+			rr := *r
+			rr.TimeS = total
+			rr.Backend = r.Backend
+			o.Res, o.Txt, o.Tier = &rr, txt, tier
+			return true
+		}
+		o.Res, o.Txt, o.Tier = r, txt, tier
+		return false
+	}
+	short := 5
+	if budgetS < short {
+		short = budgetS
+	}
+	if nq > 0 && !hasQuantifier(o.Goal) {
+		if try(qf, short, "quantifier-free") {
+			return
+		}
+	}
+	if len(o.Axioms) > 0 {
+		if try(o.Assume, short*2, "no-axioms") {
+			return
+		}
+		try(append(append([]*Term{}, o.Axioms...), o.Assume...), budgetS, "full")
+		return
+	}
+	try(o.Assume, budgetS, "full")
 }
 
 // ok reports whether the obligation is discharged.
